@@ -44,7 +44,7 @@ def run(spec, pid, tier, seed, replay=None):
             notes.append(out[-500:])
         checker_cmd += " && lake env leanchecker " + spec["theorems"]
 
-    tally = core.Tally(pid, known, spec.get("only_oracles"), spec.get("excluded_classes"))
+    tally = core.Tally(pid, known, spec.get("only_oracles"), spec.get("excluded_classes"), spec.get("oracle_known"))
     if replay:
         req, resp = core.pipeline(pid + ".replay", [core.TGH, "replay"], stdin_path=replay)
         tally.consume("replay", req, resp)
@@ -99,7 +99,7 @@ def run(spec, pid, tier, seed, replay=None):
         # the tie (or a proof obligation) is broken: search wider for a failing input
         found = None
         for extra in range(1, 3 if tier == "quick" else 5):
-            t3 = core.Tally(pid, known, spec.get("only_oracles"), spec.get("excluded_classes"))
+            t3 = core.Tally(pid, known, spec.get("only_oracles"), spec.get("excluded_classes"), spec.get("oracle_known"))
             for g in spec["groups"]:
                 req, resp = core.pipeline("%s.%s.s%d" % (pid, g, extra),
                                           [core.TGH, g, "--tier", tier,
